@@ -48,7 +48,7 @@ OBS = ['Observation/subarray', 'Observation/spw', 'Observation/target', 'Observa
        'Observation/spw_index', 'Observation/target_index', 'Observation/scan_state', 'Observation/label',
        'Observation/scan_index', 'Observation/compscan_index']
 STATES_RAW = ['slew', 'track', 'scan', 'stop']
-SHORTS = ['f', 's', 'i', 'b']
+SHORTS = ['f', 's', 'i', 'b', 'u']
 
 
 # ---------------------------------------------------------------------------------------------------------------
@@ -137,6 +137,8 @@ def gen_case(rng):
                 break
     pool = rng.sample(range(len(c19parts.TARGETS)), rng.randint(2, 4))
     present = {s: [rng.random() < 0.6 for _ in range(k)] for s in SHORTS}
+    if rng.random() >= 0.12:
+        present['u'] = [False] * k      # sensors of an unsigned integer type (open finding C19-F4) only now and then
     arr_present = [rng.random() < 0.5 for _ in range(k)] if rng.random() < 0.2 else [False] * k
     parts = []
     for i in range(k):
@@ -152,6 +154,8 @@ def gen_case(rng):
             sens['s'] = ('s', gen_events(rng, T, ['', 'x', 'y', 'z'], first=rng.random() < 0.8, maxn=2) or [(0, 'x')])
         if present['i'][i]:
             sens['i'] = ('i', gen_events(rng, T, [-1, 0, 3, 5], first=rng.random() < 0.8, maxn=2) or [(0, 3)])
+        if present['u'][i]:
+            sens['u'] = ('u', gen_events(rng, T, [0, 3, 200, 255], first=rng.random() < 0.8, maxn=2) or [(0, 3)])
         if present['b'][i]:
             sens['b'] = ('b', gen_events(rng, T, [True, False], first=rng.random() < 0.8, maxn=2) or [(0, True)])
         spec = dict(fmt=fmts[i], T=T, start=starts[i], dt=dts[i], ants=list(ants[i]), F=F, cfv=cfv[i],
@@ -306,9 +310,9 @@ def read_sensor(d, name, ids):
     except KeyError:
         return None
     if isinstance(x, CategoricalData):
-        return ('cat', dtype_code(x.dtype), cd_wire(x, lambda v: vid(ids, v)))
+        return ('cat', dtype_code(x.dtype), cd_wire(x, lambda v: vid(ids, v)), np.dtype(x.dtype).kind if x.dtype is not None else 'O')
     x = np.asarray(x)
-    return ('num', int(x.dtype.kind == 'f'), [vid(ids, v) for v in x.tolist()])
+    return ('num', int(x.dtype.kind == 'f'), [vid(ids, v) for v in x.tolist()], x.dtype.kind)
 
 
 def sensor_names(case):
@@ -481,6 +485,8 @@ def stage_open(cs, parts, twins_info, c, exc, out, names, how):
             cs.disagree('stage=open;what=part_sensors_vs_model:%s' % ','.join(which), gotp, exp,
                         'index sensors written back into part %d differ from the model' % i, kind='tie', part=i)
     # every other sensor: whole series, and the selected values under a time mask
+    dead = set()
+    cs.sorted_twins = [i for st in s_starts for i in range(len(twins_info)) if starts.index(twins_info[i]['start']) == st]
     eff = [bool(a and b) for a, b in zip(gen['keep'], s_keep0)]
     with warnings.catch_warnings():
         warnings.simplefilter('ignore')
@@ -489,7 +495,31 @@ def stage_open(cs, parts, twins_info, c, exc, out, names, how):
             try:
                 x = read_sensor(c, n, ids)
             except Exception as e:      # noqa: BLE001
-                x = ('raised', repr(e))
+                x = ('raised', repr(e), type(e).__name__)
+            if cs.uns[j] and cs.lacks[j]:
+                # unsigned integer type, missing from a part: finding C19-F4 (dummy_sensor_getter: np.uint8(-1))
+                dead.add(j)
+                if x is not None and x[0] == 'raised':
+                    ctx.disagree('stage=sensor;what=unsigned_missing_raises;exc=%s' % x[2], cs.doc(name=n), x[1], ms,
+                                 'a sensor of an unsigned integer type that some part lacks cannot be read from the concatenation',
+                                 spec=ss[0] if ss else None)
+                    if ms != [3]:
+                        cs.disagree('stage=sensor;what=unsigned_vs_model;name=%s' % short_name(n), x[1], ms, 'model answers', kind='tie')
+                elif x is not None:
+                    # (a repaired dummy_sensor_getter) the parts that have it as they are, ONE filler value elsewhere
+                    per_dump = x[2] if x[0] == 'num' else expand_wire(x[2])
+                    segs_ = [int(v) for v in c._segments]
+                    okv = ss and len(per_dump) == len(ss[0])
+                    for pi, sidx in enumerate(cs.sorted_twins):
+                        if not okv:
+                            break
+                        a, b = per_dump[segs_[pi]:segs_[pi + 1]], ss[0][segs_[pi]:segs_[pi + 1]]
+                        okv = (a == b) if twins_info[sidx]['sens'][n] is not None else len(set(a)) == 1
+                    if not okv:
+                        cs.disagree('stage=sensor;what=values;name=%s' % short_name(n), per_dump, ms,
+                                    'sensor is not the concatenation of the parts with dummy fill', spec=ss[0] if ss else None)
+                    ctx.count('unsigned_missing_filled')
+                continue
             if x is None:
                 if ss:
                     cs.disagree('stage=sensor;what=keyerror;name=%s' % short_name(n), 'KeyError', ms,
@@ -518,7 +548,7 @@ def stage_open(cs, parts, twins_info, c, exc, out, names, how):
                 if got_keep != eff:
                     cs.disagree('stage=sensor;what=mask', got_keep, eff, 'select(dumps=mask) did not AND the mask into the default selection')
                 for j, n in enumerate(names):
-                    if not s_sens[j]:
+                    if not s_sens[j] or j in dead:
                         continue
                     try:
                         v = c.sensor[n]
@@ -1262,7 +1292,9 @@ def run_case(ctx, cseed, gen=None, stages=('open', 'data', 'select', 'scans', 'o
             cs.t_epoch = t_epoch = min(o['ts'][0] for o in infos)
             order = gen['order']
             wire_parts = [part_wire(infos[i], t_epoch, unit, starts, dps, names) for i in order]
-            wnames = [[j, 0] for j in range(len(names))]
+            cs.uns = [any(o['sens'][n] is not None and o['sens'][n][3] == 'u' for o in infos) for n in names]
+            cs.lacks = [any(o['sens'][n] is None for o in infos) and any(o['sens'][n] is not None for o in infos) for n in names]
+            wnames = [[j, 0, int(cs.uns[j])] for j in range(len(names))]
             out = ctx.model([[19, [wire_parts, wnames, [int(x) for x in gen['keep']]]]])[0]
             c, exc, how = None, None, ''
             try:
